@@ -782,6 +782,31 @@ pub fn g_swallow_invalid(o: &mut Out, types: &[&str]) {
     }
 }
 
+/// numerals longer than the text buffer from a source that ignores the failed write and goes on (and returns Ok): the
+/// answer must be an error, never the value of the part that fitted
+pub fn g_swallow_long(o: &mut Out, types: &[&str]) {
+    for ty in types {
+        let Some(capn) = text_cap(ty) else { continue };
+        let cap = capn.to_string();
+        let mut texts: Vec<String> = vec![];
+        for extra in [1usize, 2, 7, capn] {
+            texts.push("1234567".repeat((capn + extra) / 7 + 1)[..capn + extra].to_string());
+            texts.push(format!("9e{}1", "0".repeat(capn + extra - 3)));
+            texts.push(format!("-0.{}", "5".repeat(capn + extra - 3)));
+            texts.push(format!("{}e-3", "8".repeat(capn + extra - 3)));
+        }
+        for t in texts {
+            let h = t.len() / 2;
+            for frs in [tx(&t), format!("{},{}", tx(&t[..h]), tx(&t[h..])), format!("{},{},{}", tx(&t[..7]), tx(&t[7..capn - 1]), tx(&t[capn - 1..]))] {
+                o.put(&format!("swallow-long/{}", ty), format!("parse_fmt {} {} {} swallow", ty, cap, frs));
+            }
+            let bytes: Vec<String> = t.bytes().map(|b| format!("{:02x}", b)).collect();
+            o.put(&format!("swallow-long/{}", ty), format!("parse_fmt {} {} {} swallow", ty, cap, bytes.join(",")));
+            o.put(&format!("swallow-long-str/{}", ty), format!("parse_str {} {}", ty, tx(&t)));
+        }
+    }
+}
+
 /// digits after a closed payload, second points, signs inside: longer targeted invalid strings
 pub fn g_targeted_invalid(o: &mut Out) {
     let xs = [
@@ -1411,6 +1436,16 @@ pub fn g_bytes(o: &mut Out) {
             // "unbounded": lengths far beyond anything else in the run (1 MiB + 4, 4 MiB + 4)
             lens.extend([1048576, 1048577, 1048580]);
         }
+        // "unbounded for BigBitstring": half a gigabyte and its neighbours, by length (2^29 bytes = 2^32 bits: a width kept
+        // in a 32-bit quantity wraps here); the bounded type must refuse the same lengths with the right figures
+        for len in [536870912usize, 536870916, 536870913] {
+            if ty == "big" || len == 536870912 {
+                o.put(&format!("try_le-fill/{}", ty), format!("try_le_fill {} {} 00", ty, len));
+            }
+        }
+        for len in [0usize, 3, 4, 20, 24, 65536] {
+            o.put(&format!("try_le-fill/{}", ty), format!("try_le_fill {} {} a5", ty, len));
+        }
         for len in lens {
             for k in 0..3 {
                 let b = match k {
@@ -1569,12 +1604,15 @@ pub fn g_consts(o: &mut Out) {
         let f = Fmt { n: type_n(ty).unwrap() };
         for base in [f.qmin_i(), f.qmax_i()] {
             for d in -3..=3 {
-                for digit in ["1", "9", "5"] {
+                // DIGITS zeros are a DIGITS-digit integer numeral too (the boundary must not depend on the coefficient's value)
+                for digit in ["1", "9", "5", "0"] {
                     let s = format!("{}e{}", digit.repeat(f.p()), base + d);
                     o.put(&format!("limit-numeral/{}", ty), format!("parse_str {} {}", ty, tx(&s)));
                     o.put(&format!("limit-numeral/{}", ty), format!("parse_str {} {}", ty, tx(&format!("-{}", s))));
                     let s1 = format!("1e{}", base + d);
                     o.put(&format!("limit-numeral/{}", ty), format!("parse_str {} {}", ty, tx(&s1)));
+                    let s0 = format!("1{}e{}", "0".repeat(f.p() - 1), base + d);
+                    o.put(&format!("limit-numeral/{}", ty), format!("parse_str {} {}", ty, tx(&s0)));
                     // every spelling of the exponent, through both entry points: the limit must not depend on it
                     let x = base + d;
                     let (sg, mag) = if x < 0 { ("-", -x) } else { ("", x) };
